@@ -147,7 +147,7 @@ ADDED = {
     "C18": "The corpus includes requests under server clocks 10 minutes apart (both edges of each window) and under other server configurations, and pairs of equally long large bodies with different content validated back to back.",
 }
 TWICE = ["C01", "C02", "C03", "C04", "C05", "C06", "C09", "C10", "C11", "C12", "C13", "C14", "C16", "C19"]
-AMBIENT = " The whole exploration is carried out twice: (A) no logger output, providers answering at once; (B) a logger at Trace level (record arguments evaluated, Debug-and-above records formatted), the standard provider strict / not ready at once / answering late, and each option that cannot matter for the request (S3 mode, form folding) switched the other way."
+AMBIENT = " The whole exploration is carried out twice: (A) no logger output, providers answering at once; (B) a logger at Trace level (record arguments evaluated, Debug-and-above records formatted), the standard provider strict / not ready at once / answering late, each option that cannot matter for the request (S3 mode, form folding) switched the other way, and nine unsigned bystander headers with a meaning elsewhere (X-Amz-Expires, X-Amz-Content-Sha256, Content-Length, Transfer-Encoding, X-Forwarded-*, X-HTTP-Method-Override, ...) added where absent."
 for _pid in list(BUILT):
     tech, text, note, ref = BUILT[_pid]
     if _pid in ADDED:
